@@ -11,7 +11,7 @@ cp $D/demo.rs tests_demo_tmp.rs; mkdir -p tests; mv tests_demo_tmp.rs tests/demo
 clean_dbg=$(cargo test --offline --test demo >/dev/null 2>&1; echo $?)
 clean_rel=$(cargo test --offline --release --test demo >/dev/null 2>&1; echo $?)
 git apply --whitespace=nowarn $D/patch.diff; applied=$?
-suite=$(cargo test --offline >/dev/null 2>&1; echo $?)
+suite=$( (cargo test --offline --lib && cargo test --offline --doc) >/dev/null 2>&1; echo $?)
 mut_dbg=$(timeout 300 cargo test --offline --test demo >/dev/null 2>&1; echo $?)
 mut_rel=$(timeout 300 cargo test --offline --release --test demo >/dev/null 2>&1; echo $?)
 cd /; git -C /repo worktree remove --force $WT
